@@ -303,3 +303,51 @@ def k5(prog):
     if n < 1:
         raise Broken("no accumulating status flag assigned inside the per-input loop of main() (anchor `match` vanished)")
     return inst, findings
+
+
+def k6(prog):
+    """the query is executed once per combination of argument values; with a multi-valued argument that has NO value there is no
+    combination: main() must test the product of the list sizes for zero before the execution loop dereferences the iterators"""
+    inst, findings = [], []
+    main = _main(prog)
+    body = main["body"]["body"] if main["body"].get("k") == "try" else main["body"]
+    prod = None
+    for x in walk(body):
+        if x.get("k") == "asg" and x.get("op") == "*=" and any(c.get("fn") == "size" for c in calls(x["rhs"])):
+            u = unwrap(x["lhs"])
+            if isinstance(u, dict) and u.get("k") == "ref":
+                prod = u
+    if prod is None:
+        raise Broken("main() no longer computes the number of argument combinations as a product of sizes (unmodelled shape)")
+    g = CFG(main)
+    execn = [n for n in g.nodes if isinstance(n.ast, dict) and any(c.get("fn") == "zw_query_execute" for c in calls(n.ast))]
+    if not execn:
+        raise Broken("zw_query_execute call not found in main()")
+
+    def zero_edge(n, lab):
+        """edge taken exactly when the product is zero"""
+        if n.kind != "cond" or not isinstance(n.ast, dict):
+            return False
+        if not any(y.get("k") == "ref" and y.get("id") == prod["id"] for y in walk_nolambda(n.ast)):
+            return False
+        v0, v1, v2 = (eval_with(n.ast, prod["id"], v) for v in (0, 1, 2))
+        if None in (v0, v1, v2):
+            return False
+        if bool(v0) != bool(v1) and bool(v1) == bool(v2):
+            return lab is bool(v0)
+        return False
+    has_test = any(zero_edge(n, lab) for n in g.nodes for _, lab in n.succs)
+    # along the zero edge the execution must be unreachable
+    guarded = False
+    if has_test:
+        starts = [t for n in g.nodes for t, lab in n.succs if zero_edge(n, lab)]
+        guarded = all(execn[0].id not in g.reachable(start=s) and execn[0].id != s for s in starts)
+        # and the test must dominate the execution
+        reach = g.reachable(edge_ok=lambda n, t, lab: True, avoid=lambda n: any(zero_edge(n, l) or zero_edge(n, not l if isinstance(l, bool) else l) for _, l in n.succs))
+        guarded = guarded and execn[0].id not in reach
+    inst.append(("K6:main:combinations", {"product_variable": prod["n"], "zero_tested_before_execution": bool(has_test and guarded)}))
+    if not (has_test and guarded):
+        findings.append({"key": "K6:main:combinations", "where": "dwgrep/dwgrep.cc:%s" % (execn[0].loc or "?").split(":")[-1],
+                         "msg": "main() never checks that there is at least one combination of argument values: with a multi-valued --a that yields no value (`--a '1 (== 2)'`) the execution loop dereferences the end iterator of an empty list (crash instead of exit status 1)",
+                         "detail": None})
+    return inst, findings
